@@ -11,11 +11,12 @@ PID = "C04"
 
 SESSIONS = {
     # name: (argv dict, quick bound, thorough bound)
-    "lp4-192x128-n1": ({"w": 192, "h": 128, "n": 1, "logical_processors": 4, "recon_enabled": 1}, 1, 1),
+    # quick: three sessions whose <= 1-delay schedules and one-stall schedules all fit into the budget on an unloaded 16-core machine
     "lp1-64x64-n2-hl0": ({"w": 64, "h": 64, "n": 2, "hierarchical_levels": 0, "recon_enabled": 1}, 1, 1),
     "lp1-64x64-n3-hl1": ({"w": 64, "h": 64, "n": 3, "hierarchical_levels": 1, "recon_enabled": 1}, 1, 1),
-    "lp2-128x64-n3-hl1": ({"w": 128, "h": 64, "n": 3, "hierarchical_levels": 1, "logical_processors": 2, "recon_enabled": 1}, 0, 1),
-    "lp4-192x128-n2-tiles": ({"w": 192, "h": 128, "n": 2, "logical_processors": 4, "tile_rows": 1, "recon_enabled": 1}, 0, 1),
+    "lp4-192x128-n1": ({"w": 192, "h": 128, "n": 1, "logical_processors": 4, "recon_enabled": 1}, 1, 1),
+    "lp2-128x64-n3-hl1": ({"w": 128, "h": 64, "n": 3, "hierarchical_levels": 1, "logical_processors": 2, "recon_enabled": 1}, -1, 1),
+    "lp4-192x128-n2-tiles": ({"w": 192, "h": 128, "n": 2, "logical_processors": 4, "tile_rows": 1, "recon_enabled": 1}, -1, 1),
     "lp1-64x64-n1-hl0-d2": ({"w": 64, "h": 64, "n": 1, "hierarchical_levels": 0, "recon_enabled": 1}, -1, 2),
     # preset 6: loop restoration, TPL delta-q and per-block lambda tuning are active, several EncDec segment rows and workers
     # (whichever worker finishes a picture hands its state to the next stage); thorough only: ~2100 stall points of 5-picture sessions
